@@ -299,6 +299,14 @@ func runC09(c *Ctx) {
 	// ---- G1 + P1 (parser)
 	pf := c.parseFuncs()
 	untilFns := map[*ssa.Function]bool{}
+	combinedFns := map[*ssa.Function]bool{}
+	isTimeValidate := func(call *ssa.Call) bool {
+		if !call.Call.IsInvoke() || call.Call.Method.Name() != "Validate" {
+			return false
+		}
+		sig := call.Call.Signature()
+		return sig.Params().Len() == 2 && isIntType(sig.Params().At(0).Type()) && isIntType(sig.Params().At(1).Type())
+	}
 	for _, typ := range []string{"update", "recover", "deactivate"} {
 		f := pf[typ]
 		if f == nil {
@@ -323,6 +331,20 @@ func runC09(c *Ctx) {
 			return sig.Params().Len() == 2 && isIntType(sig.Params().At(0).Type()) && isIntType(sig.Params().At(1).Type())
 		}
 		var untilCallee *ssa.Function
+		// helpers of the parse function that take the signed (from, until) and consult the validator themselves
+		combinedExpiry := map[*ssa.Function]bool{}
+		for _, cl := range findCalls(f, func(cl *ssa.Call) bool { return cl.Call.StaticCallee() != nil && inModule(cl.Call.StaticCallee()) }) {
+			g := cl.Call.StaticCallee()
+			ua := declArgs(cl)
+			if g.Blocks == nil || len(ua) != 2 || c.Path(ua[0], Env{f.Params[2]: "false"}) != SD+".AnchorFrom" || c.Path(ua[1], Env{f.Params[2]: "false"}) != SD+".AnchorUntil" {
+				continue
+			}
+			for _, in := range findCalls(g, func(c2 *ssa.Call) bool { return isTV(c2) }) {
+				_ = in
+				combinedExpiry[g] = true
+				combinedFns[g] = true
+			}
+		}
 		chk := &GCheck{Name: "TimeValidator.Validate(signedData.AnchorFrom, expiry(signedData.AnchorFrom, signedData.AnchorUntil))", MatchCall: func(c *Ctx, call *ssa.Call, env Env) bool {
 			if !isTV(call) {
 				return false
@@ -333,6 +355,11 @@ func runC09(c *Ctx) {
 			}
 			uc, ok := a[1].(*ssa.Call)
 			if !ok || uc.Call.StaticCallee() == nil || !inModule(uc.Call.StaticCallee()) {
+				// the default expiry computed in the function that consults the validator: it was entered with the
+				// signed (from, until) — decided below on the value it hands to the validator
+				if h := call.Parent(); h != f && len(h.Params) >= 2 && combinedExpiry[h] {
+					return true
+				}
 				return false
 			}
 			ua := declArgs(uc)
@@ -359,9 +386,28 @@ func runC09(c *Ctx) {
 	for u := range untilFns {
 		ufs = append(ufs, u)
 	}
+	for u := range combinedFns {
+		if !untilFns[u] {
+			ufs = append(ufs, u)
+		}
+	}
 	sort.Slice(ufs, func(i, j int) bool { return ufs[i].String() < ufs[j].String() })
 	for _, u := range ufs {
-		paths, err := c.DecisionPaths(u, map[int]string{len(u.Params) - 2: "F", len(u.Params) - 1: "U"})
+		var paths []opath
+		var err error
+		if combinedFns[u] {
+			// the value handed to the validator as expiry, and the from it is handed with
+			var fromOK = true
+			for _, vc := range findCalls(u, isTimeValidate) {
+				if c.Path(vc.Call.Args[0], nil) != fmt.Sprintf("$%d", len(u.Params)-2) {
+					fromOK = false
+				}
+			}
+			c.Check("C09.G1", "parser:validator-receives-from", fromOK, u.Pos(), "the time validator is handed the signed from unchanged")
+			paths, err = c.DecisionPathsToCall(u, map[int]string{len(u.Params) - 2: "F", len(u.Params) - 1: "U"}, func(call *ssa.Call) (bool, int) { return isTimeValidate(call), 1 })
+		} else {
+			paths, err = c.DecisionPaths(u, map[int]string{len(u.Params) - 2: "F", len(u.Params) - 1: "U"})
+		}
 		if err != nil {
 			c.Check("C09.O1", "parser:expiry", false, u.Pos(), "cannot extract a decision tree: "+err.Error())
 			continue
